@@ -6,6 +6,7 @@ import (
 	"fmt"
 	"net/http"
 	"net/http/httptest"
+	"os"
 	"sort"
 	"strings"
 	"sync"
@@ -34,6 +35,9 @@ type WorldConfig struct {
 	Metrics           bool     `json:"metrics,omitempty"`
 	UnsubDelayMs      int      `json:"unsubDelayMs,omitempty"` // 0 = no delay (NoUnsubscribeDelay)
 	Procs             int      `json:"procs,omitempty"`
+	// Protocol: clients follow the protocol; an unsubscribe for more than the
+	// confirmed direct subscriptions is a no-op (keeps shrunk scripts in the domain).
+	Protocol bool `json:"protocol,omitempty"`
 }
 
 // LogEntry is one entry of the global, logically-clocked boundary/frame log.
@@ -127,6 +131,7 @@ type World struct {
 	tokens      map[int][]string // actor -> token history (JSON text), "" = none
 	closedAt    map[int]int
 	started     bool
+	Journal     *os.File // per-op journal for crash attribution
 }
 
 type nullLogger struct {
@@ -327,6 +332,10 @@ func (w *World) Exec(op Op) {
 	w.step = len(w.Script)
 	w.Script = append(w.Script, op)
 	w.stats.Steps++
+	if w.Journal != nil {
+		b, _ := json.Marshal(op)
+		w.Journal.Write(append(b, '\n'))
+	}
 	if op.K == "par" {
 		var wg sync.WaitGroup
 		start := make(chan struct{})
@@ -384,6 +393,14 @@ func (w *World) execOne(op Op) {
 		if op.ID >= c.NextID {
 			c.NextID = op.ID + 1
 		}
+		if w.Cfg.Protocol && strings.HasPrefix(op.M, "unsubscribe.") {
+			tmp := newRefClient(-1)
+			tmp.NoteRequest(0, op.M, op.P, 0, 0)
+			q := tmp.Reqs[0]
+			if q.BadCnt || c.Ref.Direct[q.RID] < q.Count {
+				return
+			}
+		}
 		var frame string
 		if op.P != "" {
 			frame = fmt.Sprintf(`{"id":%d,"method":%s,"params":%s}`, op.ID, jstr(op.M), op.P)
@@ -429,6 +446,7 @@ func (w *World) execOne(op Op) {
 	case "rawev":
 		w.mq.Deliver(op.S, []byte(op.P))
 	case "sysreset":
+		w.Svc.markFlush(op.P)
 		w.mq.Deliver("system.reset", []byte(op.P))
 	case "token":
 		c := w.client(op.C)
@@ -622,7 +640,7 @@ func (w *World) doMutate(op Op) {
 		return
 	}
 	if w.mq.Deliver("event."+op.S+"."+ev, []byte(payload)) {
-		v.announce()
+		v.applyAnnounced(op.O, op.Key, op.N, op.Val)
 	}
 }
 
@@ -811,6 +829,7 @@ type Violation struct {
 	Conn     int    `json:"conn"`
 	RID      string `json:"rid,omitempty"`
 	T        int    `json:"t,omitempty"`
+	Other    string `json:"other,omitempty"`
 }
 
 func jsonCompact(b []byte) string {
